@@ -49,6 +49,18 @@ Theorem C02_source : forall rf itype evs pre post c mid r tag c1 m e p,
 Proof. exact response_source. Qed.
 Print Assumptions C02_source.
 
+(* No foreign responses, whatever numeric session ids are reused: every response ever written to
+   a connection answers a request THAT connection (the identity c1, not a numeric id) sent while
+   it was open, under that request's id.  A connection that is handed the recycled id of a closed
+   one therefore never receives the closed one's replies or time-outs; together with
+   C02_closed_silent the reply of a request of a closed connection is written nowhere. *)
+Theorem C02_no_foreign_response : forall rf itype evs c1 t m e p,
+  NoDup (tags_of (ops_of evs)) ->
+  In (c1, t, Resp m e p) (out (run rf itype evs)) ->
+  exists pre post r, ops_of evs = pre ++ OReq c1 m r t :: post /\ is_open (cview pre) c1 = true.
+Proof. exact response_has_requester. Qed.
+Print Assumptions C02_no_foreign_response.
+
 (* When the clock only crosses the deadlines at quiescence (no reply in flight for a waiting
    request at any Advance: [calm]), the response is exactly the expected one: in particular a
    forwarded request whose handler replies is answered with that reply, unchanged, naming
@@ -125,7 +137,7 @@ Print Assumptions C02_harness_schedule.
    front handler (the only unanswered one) *)
 Example C02_example_sync :
   observe (run_sync rf0 itype0
-    [OConnect 1 false; OReq 1 900 (RT 0 (MSetKey 2)) 1; OReq 1 10 (RT 1 MEcho) 2;
+    [OConnect 1 false 1; OReq 1 900 (RT 0 (MSetKey 2)) 1; OReq 1 10 (RT 1 MEcho) 2;
      ONotify 1 (RT 1 MEcho) 3; OReq 1 11 (RT 1 MNote) 4; OReq 1 12 (RT 7 MEcho) 5;
      OReq 1 13 (RT 2 MNever) 6; OReq 1 14 (RT 0 MNever) 7])
   = ([(1, [Resp 900 false (PReply 0 1); Resp 10 false (PReply 2 2); Resp 11 true PNone;
@@ -137,16 +149,27 @@ Proof. vm_compute. reflexivity. Qed.
    one response (the time-out error), the late reply is dropped; not calm *)
 Example C02_example_timeout :
   out (finish itype0 (run rf0 itype0
-    [EOp (OConnect 1 false); EOp (OReq 1 5 (RT 2 MEcho) 1); EOp OAdvance; EDeliver 0; EDeliver 0]))
+    [EOp (OConnect 1 false 1); EOp (OReq 1 5 (RT 2 MEcho) 1); EOp OAdvance; EDeliver 0; EDeliver 0]))
   = [(1, 1, Resp 5 true PNone)]
   /\ calm rf0 itype0
-    [EOp (OConnect 1 false); EOp (OReq 1 5 (RT 2 MEcho) 1); EOp OAdvance; EDeliver 0; EDeliver 0] = false.
+    [EOp (OConnect 1 false 1); EOp (OReq 1 5 (RT 2 MEcho) 1); EOp OAdvance; EDeliver 0; EDeliver 0] = false.
 Proof. vm_compute. split; reflexivity. Qed.
+
+(* session-id reuse: connection 1 (numeric id 7) parks a request at a silent back-end handler and
+   closes; connection 2 is handed the recycled id 7 and uses the same request id; the time-out of
+   1's request is written nowhere, 2 gets exactly its own answer.  A connect that would take the
+   id of a LIVE connection is outside the model (ignored). *)
+Example C02_example_id_reuse :
+  observe (run_sync rf0 itype0
+    [OConnect 1 false 7; OReq 1 5 (RT 2 MNever) 1; OClose 1; OConnect 2 false 7;
+     OConnect 3 false 7; OReq 2 5 (RT 2 MEcho) 2; OAdvance])
+  = ([(1, []); (2, [Resp 5 false (PReply 3 2)])], [(3, 1); (3, 2)]).
+Proof. vm_compute. reflexivity. Qed.
 
 (* a later front-local request overtakes a forwarded one that is still in flight *)
 Example C02_example_overtake :
   out (finish itype0 (run rf0 itype0
-    [EOp (OConnect 1 false); EOp (OReq 1 5 (RT 2 MEcho) 1); EDeliver 0;
+    [EOp (OConnect 1 false 1); EOp (OReq 1 5 (RT 2 MEcho) 1); EDeliver 0;
      EOp (OReq 1 6 (RT 0 MFail) 2); EDeliver 0; EOp OAdvance]))
   = [(1, 2, Resp 6 true PNone); (1, 1, Resp 5 false (PReply 3 1))].
 Proof. vm_compute. reflexivity. Qed.
